@@ -59,6 +59,7 @@ PROPS = {
                 "Non-trivial = definite model verdict; distinct = (program, goal, solver, fresh|warm).",
         "min_evals": 20000, "min_nontrivial": 5000,
         "require_observed": ["nontrivial:fresh:True", "nontrivial:fresh:False", "nontrivial:warm:True", "nontrivial:warm:False", "answer:slg:warm", "answer:recursive:warm"],
+        "case_timeout": 25, "alone_timeout": 25,
         "assumptions": COMMON_ASSUME,
     },
     "C06": {
@@ -98,7 +99,7 @@ PROPS = {
                 "Non-trivial = a solve that made >= 50 callbacks; distinct = (program, goal, configuration, entry point).",
         "min_evals": 8000, "min_nontrivial": 300,
         "require_observed": ["returned:slg:solve:", "returned:recursive:solve:", "returned:slg:solve_multiple:", "returned:slg:solve_limited:", "returned:recursive:solve_limited:"],
-        "deaths_are_violations": True, "case_timeout": 180, "alone_timeout": 120,
+        "deaths_are_violations": True, "case_timeout": 150, "alone_timeout": 100,
         "assumptions": COMMON_ASSUME + ["termination is restated as bounded work; the bound (300000 callbacks) is >1000x the largest count seen on the unchanged tree (see gauges)"],
     },
     "C10": {
